@@ -20,6 +20,7 @@ import (
 	"encoding/hex"
 	"flag"
 	"fmt"
+	"io"
 	"math"
 	"math/rand"
 	"os"
@@ -29,12 +30,14 @@ import (
 	"runtime/debug"
 	"strconv"
 	"strings"
+	"sync"
 	"time"
 
 	"kvharness/internal/gen"
 	"kvharness/internal/msgs"
 
 	"github.com/segmentio/kafka-go/protocol"
+	"github.com/segmentio/kafka-go/protocol/saslauthenticate"
 )
 
 var (
@@ -276,6 +279,50 @@ func decodeReal(m msgs.Msg, ver int16, frame []byte) (out string) {
 	return fmt.Sprintf("%d %s", corr, msgs.Text(reflect.ValueOf(msg).Elem(), nil))
 }
 
+// applySite walks v in declaration order (through the first element of every slice) and, at the idx-th
+// slice / []byte / string site, applies a variant: 0 = nil slice / nil []byte / empty string,
+// 1 = empty but non-nil slice / []byte.  It reports whether the site exists and the variant applies.
+func applySite(v reflect.Value, idx *int, variant int) (found, applied bool) {
+	t := v.Type()
+	if t == recordSetType || t == rawRecordSetType {
+		return false, false
+	}
+	switch t.Kind() {
+	case reflect.String:
+		if *idx == 0 {
+			if variant == 0 {
+				v.SetString("")
+				return true, true
+			}
+			return true, false
+		}
+		*idx--
+	case reflect.Slice:
+		if *idx == 0 {
+			if variant == 0 {
+				v.Set(reflect.Zero(t))
+			} else {
+				v.Set(reflect.MakeSlice(t, 0, 0))
+			}
+			return true, true
+		}
+		*idx--
+		if t.Elem().Kind() != reflect.Uint8 && v.Len() > 0 {
+			return applySite(v.Index(0), idx, variant)
+		}
+	case reflect.Struct:
+		for i := 0; i < t.NumField(); i++ {
+			if t.Field(i).PkgPath != "" {
+				continue
+			}
+			if f, a := applySite(v.Field(i), idx, variant); f {
+				return f, a
+			}
+		}
+	}
+	return false, false
+}
+
 func generate() {
 	r := gen.New()
 	w := bufio.NewWriter(os.Stdout)
@@ -297,31 +344,54 @@ func generate() {
 				}
 				msg := m.New()
 				f.fill(reflect.ValueOf(msg).Elem(), 0)
-				corr := int32(f.integer(32))
-				cid := ""
-				if k > 0 {
-					cid = f.str()
-					if len(cid) > 200 {
-						cid = cid[:200]
+				emitCase(w, i, m, ver, f, msg, k > 0)
+			}
+			// systematically: every slice / []byte / string field nil, empty-but-non-nil (and non-empty: the
+			// small full value above), one site at a time on the small full value
+			for site := 0; ; site++ {
+				exists := false
+				for variant := 0; variant < 2; variant++ {
+					f := &filler{r: r, payloads: msgs.Payloads{}, version: ver, mode: 1}
+					msg := m.New()
+					f.fill(reflect.ValueOf(msg).Elem(), 0)
+					idx := site
+					found, applied := applySite(reflect.ValueOf(msg).Elem(), &idx, variant)
+					exists = exists || found
+					if applied {
+						emitCase(w, i, m, ver, f, msg, true)
 					}
 				}
-				text := msgs.Text(reflect.ValueOf(msg).Elem(), f.payloads)
-				args := fmt.Sprintf("%d %d %d %s %s", i, ver, corr, gen.Hex([]byte(cid)), text)
-				frame, err := encodeReal(m, ver, corr, cid, msg)
-				if err != nil {
-					fmt.Fprintf(w, "enc %s\terr\n", args)
-					continue
+				if !exists {
+					break
 				}
-				fmt.Fprintf(w, "enc %s\t%s\n", args, hex.EncodeToString(frame))
-				// the reference frame for the same value is requested from the oracle and decoded in a second pass
-				fmt.Fprintf(w, "spec %s\t-\n", args)
-				if m.IsRequest && m.Override {
-					continue // ReadRequest selects the type by api key: the override type is never decoded
-				}
-				fmt.Fprintf(w, "dec %d %d %s\t%s\n", i, ver, hex.EncodeToString(frame), decodeReal(m, ver, frame))
 			}
 		}
 	}
+}
+
+func emitCase(w *bufio.Writer, i int, m msgs.Msg, ver int16, f *filler, msg protocol.Message, withClientID bool) {
+	corr := int32(f.integer(32))
+	cid := ""
+	if withClientID {
+		cid = f.str()
+		if len(cid) > 200 {
+			cid = cid[:200]
+		}
+	}
+	text := msgs.Text(reflect.ValueOf(msg).Elem(), f.payloads)
+	args := fmt.Sprintf("%d %d %d %s %s", i, ver, corr, gen.Hex([]byte(cid)), text)
+	frame, err := encodeReal(m, ver, corr, cid, msg)
+	if err != nil {
+		fmt.Fprintf(w, "enc %s\terr\n", args)
+		return
+	}
+	fmt.Fprintf(w, "enc %s\t%s\n", args, hex.EncodeToString(frame))
+	// the reference frame for the same value is requested from the oracle and decoded in a second pass
+	fmt.Fprintf(w, "spec %s\t-\n", args)
+	if m.IsRequest && m.Override {
+		return // ReadRequest selects the type by api key: the override type is never decoded
+	}
+	fmt.Fprintf(w, "dec %d %d %s\t%s\n", i, ver, hex.EncodeToString(frame), decodeReal(m, ver, frame))
 }
 
 func readCases(path string) [][3]string {
@@ -382,7 +452,16 @@ func child() {
 		if len(p) != 3 {
 			continue
 		}
-		m, ver, frame, ok := caseOf([3]string{p[0], p[1], p[2]})
+		var m msgs.Msg
+		var ver int16
+		var frame []byte
+		ok := false
+		if p[0] == "sasl" {
+			frame, _ = hex.DecodeString(p[2])
+			ok = true
+		} else {
+			m, ver, frame, ok = caseOf([3]string{p[0], p[1], p[2]})
+		}
 		if !ok {
 			continue
 		}
@@ -390,7 +469,12 @@ func child() {
 		w.Flush()
 		var before, after runtime.MemStats
 		runtime.ReadMemStats(&before)
-		out := decodeReal(m, ver, frame)
+		out := ""
+		if p[0] == "sasl" {
+			out = saslRaw(frame)
+		} else {
+			out = decodeReal(m, ver, frame)
+		}
 		runtime.ReadMemStats(&after)
 		if out != "err" && out != "panic" {
 			out = "ok"
@@ -398,6 +482,38 @@ func child() {
 		fmt.Fprintf(w, "done %d %s %d\n", n, out, after.TotalAlloc-before.TotalAlloc)
 		w.Flush()
 	}
+}
+
+// syncBuffer is a bytes.Buffer that can be polled while the child writes to it.
+type syncBuffer struct {
+	mu sync.Mutex
+	b  bytes.Buffer
+}
+
+func (s *syncBuffer) Write(p []byte) (int, error) {
+	s.mu.Lock()
+	defer s.mu.Unlock()
+	return s.b.Write(p)
+}
+func (s *syncBuffer) Len() int       { s.mu.Lock(); defer s.mu.Unlock(); return s.b.Len() }
+func (s *syncBuffer) String() string { s.mu.Lock(); defer s.mu.Unlock(); return s.b.String() }
+
+// saslRaw runs the un-framed SASL token exchange of protocol/saslauthenticate (taken by protocol.Conn.RoundTrip when
+// the broker's SaslHandshake version is 0) against a peer that answers with the given bytes.
+func saslRaw(resp []byte) (out string) {
+	defer func() {
+		if e := recover(); e != nil {
+			out = "panic"
+		}
+	}()
+	rw := struct {
+		io.Reader
+		io.Writer
+	}{bytes.NewReader(resp), io.Discard}
+	if _, err := (&saslauthenticate.Request{AuthBytes: []byte("x")}).RawExchange(rw); err != nil {
+		return "err"
+	}
+	return "ok"
 }
 
 // malFile runs the cases in child processes: a child that dies takes only the case it was working on with it.
@@ -427,7 +543,8 @@ func malFile(path string) {
 			cmd := exec.Command("sh", "-c", fmt.Sprintf("ulimit -v %d; exec %q -child", 4*memLimitKB, self))
 			cmd.Env = append(os.Environ(), "GOMEMLIMIT=512MiB", "GOTRACEBACK=none")
 			cmd.Stdin = &in
-			var stdout, stderr bytes.Buffer
+			var stdout syncBuffer
+			var stderr bytes.Buffer
 			cmd.Stdout, cmd.Stderr = &stdout, &stderr
 			done := make(chan error, 1)
 			if err := cmd.Start(); err != nil {
@@ -436,13 +553,25 @@ func malFile(path string) {
 			}
 			go func() { done <- cmd.Wait() }()
 			// budget: 20 s per batch of progress; a child that stops making progress is killed
+			// watchdog on PROGRESS: the child is killed only when no case finished for 5 s (a loaded machine
+			// must not turn a slow batch into a verdict)
 			timedOut := false
-			select {
-			case <-done:
-			case <-time.After(5 * time.Second):
-				timedOut = true
-				cmd.Process.Kill()
-				<-done
+			last, lastChange := -1, time.Now()
+		wait:
+			for {
+				select {
+				case <-done:
+					break wait
+				case <-time.After(200 * time.Millisecond):
+					if n := stdout.Len(); n != last {
+						last, lastChange = n, time.Now()
+					} else if time.Since(lastChange) > 5*time.Second {
+						timedOut = true
+						cmd.Process.Kill()
+						<-done
+						break wait
+					}
+				}
 			}
 			started, finished := -1, -1
 			for _, line := range strings.Split(stdout.String(), "\n") {
